@@ -2,14 +2,19 @@ package main
 
 import (
 	"context"
+	"errors"
 	"fmt"
 	"io"
+	"net/http"
+	"net/http/httptest"
 	"strconv"
 	"strings"
+	"sync/atomic"
 
 	"cuelabs.dev/go/oci/ociregistry"
 	"cuelabs.dev/go/oci/ociregistry/ociclient"
 	"cuelabs.dev/go/oci/ociregistry/ocimem"
+	"cuelabs.dev/go/oci/ociregistry/ociserver"
 	"cuelabs.dev/go/oci/ociregistry/ociunify"
 )
 
@@ -90,7 +95,23 @@ func mergeWrites(log []string) []string {
 	return out
 }
 
+// throttleNth answers the n-th PATCH or PUT request (counting from 1) with 429 before the registry
+// has looked at it, once.
+func throttleNth(n int, armed *atomic.Bool, h http.Handler) http.Handler {
+	var seen int32
+	return http.HandlerFunc(func(w http.ResponseWriter, req *http.Request) {
+		// only requests made on behalf of a Write or a Commit (calls a caller can simply repeat) count
+		if armed.Load() && (req.Method == "PATCH" || req.Method == "PUT") && atomic.AddInt32(&seen, 1) == int32(n) {
+			ociregistry.WriteError(w, ociregistry.ErrTooManyRequests)
+			return
+		}
+		h.ServeHTTP(w, req)
+	})
+}
+
 type upSession struct {
+	armed   atomic.Bool
+	flakyAt int
 	stack  string
 	hint   int
 	reg    ociregistry.Interface
@@ -119,6 +140,9 @@ func (*c04) Impl(c Case) []string {
 				return "bad-op"
 			}
 			switch t[1] {
+			case "flaky":
+				u.flakyAt, _ = strconv.Atoi(t[2])
+				return "ok"
 			case "init":
 				u.close()
 				u.stack = t[2]
@@ -133,6 +157,16 @@ func (*c04) Impl(c Case) []string {
 					hops := 1
 					if u.stack == "wire2" {
 						hops = 2
+					}
+					if u.flakyAt > 0 && hops == 1 {
+						srv := httptest.NewServer(throttleNth(u.flakyAt, &u.armed, ociserver.New(u.shim, nil)))
+						cl, err := ociclient.New(strings.TrimPrefix(srv.URL, "http://"), &ociclient.Options{Insecure: true})
+						if err != nil {
+							srv.Close()
+							return "bad-op"
+						}
+						u.reg, u.closer = cl, srv.Close
+						return "ok"
 					}
 					ch := newChain(u.shim, hops, nil, &ociclient.Options{})
 					u.reg, u.closer = ch.regs[len(ch.regs)-1], ch.Close
@@ -155,14 +189,20 @@ func (*c04) Impl(c Case) []string {
 			case "write":
 				data, _ := untok(t[2])
 				p := []byte(data)
+				u.armed.Store(true)
+				defer u.armed.Store(false)
 				n, err := u.w.Write(p)
+				if err != nil && n == 0 && u.flakyAt > 0 && errors.Is(err, ociregistry.ErrTooManyRequests) {
+					n, err = u.w.Write(p) // turned down before the registry took anything: the caller tries again
+				}
 				scribble(p) // io.Writer: the chunk belongs to the caller again once Write returns
 				if err != nil {
 					return "err " + errClass(err)
 				}
 				return "n " + strconv.Itoa(n)
 			case "closeresume":
-				if err := u.w.Close(); err != nil {
+				err := u.w.Close()
+				if err != nil {
 					return "err " + errClass(err)
 				}
 				off := u.w.Size()
@@ -178,7 +218,13 @@ func (*c04) Impl(c Case) []string {
 				return "ok " + strconv.FormatInt(w.Size(), 10)
 			case "commit":
 				dg, _ := untok(t[2])
-				return descResult(u.w.Commit(ociregistry.Digest(dg)))
+				u.armed.Store(true)
+				defer u.armed.Store(false)
+				d, err := u.w.Commit(ociregistry.Digest(dg))
+				if err != nil && u.flakyAt > 0 && errors.Is(err, ociregistry.ErrTooManyRequests) {
+					d, err = u.w.Commit(ociregistry.Digest(dg))
+				}
+				return descResult(d, err)
 			case "log":
 				if u.shim == nil || u.stack != "wire1" {
 					return "skip-model"
@@ -266,6 +312,11 @@ func (*c04) Gen(rng *RNG, tier string) []Case {
 		}
 		content := rng.Bytes(length)
 		lines := []string{fmt.Sprintf("up init %s %d %d", stack, hint, min), "up start"}
+		flaky := stack == "wire1" && rng.Chance(1, 4)
+		if flaky {
+			// one PATCH/PUT is turned down with 429 before the registry sees it; the caller retries that call
+			lines = append([]string{fmt.Sprintf("up flaky %d", 1+rng.Intn(4))}, lines...)
+		}
 		received := 0
 		excluded := false
 		for _, p := range partitions(rng, content, min+2) {
@@ -287,7 +338,7 @@ func (*c04) Gen(rng *RNG, tier string) []Case {
 				}
 			}
 		}
-		if rng.Chance(1, 5) && !excluded && (stack == "mem" || stack == "wire1") {
+		if rng.Chance(1, 5) && !excluded && !flaky && (stack == "mem" || stack == "wire1") {
 			// data at a wrong offset must be refused and must not alter the upload
 			lines = append(lines, "up closeresume explicit", fmt.Sprintf("up badwrite %d %s", received+1+rng.Intn(3), tok("zz")), "up log")
 			if rng.Bool() {
@@ -295,17 +346,31 @@ func (*c04) Gen(rng *RNG, tier string) []Case {
 				lines = append(lines, fmt.Sprintf("up badcommit %d %s %s", received+1+rng.Intn(3), tok("zz"), tok(sha256Digest(append(append([]byte{}, content[:received]...), 'z', 'z')))), "up log")
 			}
 		}
-		if rng.Chance(1, 4) && !excluded && received != 1 && (stack == "mem" || stack == "wire1") {
+		if rng.Chance(1, 4) && !excluded && !flaky && received != 1 && (stack == "mem" || stack == "wire1") {
 			// a refused write at a wrong offset must not disturb a later resume "where it left off"
 			tail := []byte("tail")
 			lines = append(lines, "up closeresume explicit", fmt.Sprintf("up badwrite %d %s", received+2, tok("zz")), "up closeresume ask", "up write "+tok(string(tail)), "up log")
 			content = append(content, tail...)
 		}
 		good := sha256Digest(content)
+		committedGood := true
 		if rng.Chance(1, 6) {
+			committedGood = false
 			lines = append(lines, "up commit "+tok(sha256Digest(append([]byte("wrong"), content...))), "up get "+tok(good))
 		} else {
 			lines = append(lines, "up commit "+tok(good), "up log", "up get "+tok(good))
+		}
+		if rng.Chance(1, 5) && !excluded && committedGood && stack == "mem" {
+			// the session stays open after a commit: more bytes, then a second commit, which is judged on
+			// what the upload holds then (a wrong digest is refused, the right one stores the longer blob)
+			more := []byte("-more")
+			lines = append(lines, "up closeresume explicit", "up write "+tok(string(more)))
+			longer := append(append([]byte{}, content...), more...)
+			if rng.Bool() {
+				lines = append(lines, "up commit "+tok(sha256Digest(longer)), "up get "+tok(sha256Digest(longer)))
+			} else {
+				lines = append(lines, "up commit "+tok(sha256Digest(content)), "up get "+tok(sha256Digest(longer)))
+			}
 		}
 		tag := "valid"
 		if excluded {
